@@ -431,7 +431,7 @@ class Row(Vec):
             return Row([x * b for x in a.e])
         return NotImplemented
     def __mod__(a, b):
-        if isinstance(b, Row):
+        if isinstance(b, Vec) and len(a) == 3 and len(b) == 3:      # Row % Row and Row % Vec both give a Row
             return Row(cross(Vec(a.e), Vec(b.e)).e)
         return NotImplemented
 
